@@ -10,14 +10,21 @@ static void own_buffer_check(const char* what, const pv_mlang* L) {
     for (int i = 0; i < pv_w->nev; ++i) {
         const pv_event* e = &pv_w->ev[i];
         if (e->kind != PV_EV_NFC && e->kind != PV_EV_NFKD) continue;
-        for (int k = 0; k < pv_w->nev; ++k) {
-            const pv_event* z = &pv_w->ev[k];
-            if (z->kind != PV_EV_MEMZERO || (const char*)e->ptr < (const char*)z->ptr || (const char*)e->ptr >= (const char*)z->ptr + z->len) continue;
-            size_t extent = (size_t)((const char*)z->ptr + z->len - (const char*)e->ptr);      /* what the library wipes from p onwards */
-            pv_countf(1, "own_buffer.extent_wiped_from_the_address_of_a_normaliser_input.%zu", extent); PV_COUNT("own_buffer.observations", 1);
-            if (extent < e->len)
-                pv_violation("C17/own-buffer-smaller-than-its-string", "%s (%s): a %zu-byte string was handed to the normaliser from a buffer of which the library wipes %zu bytes", what, L->name_en, e->len, extent);
+        /* the contiguous extent wiped from p onwards (a library may wipe a buffer in several pieces) */
+        const char* cur = e->ptr; bool grew = true, any = false;
+        while (grew) {
+            grew = false;
+            for (int k = 0; k < pv_w->nev; ++k) {
+                const pv_event* z = &pv_w->ev[k];
+                if (z->kind != PV_EV_MEMZERO || cur < (const char*)z->ptr || cur >= (const char*)z->ptr + z->len) continue;
+                cur = (const char*)z->ptr + z->len; grew = true; any = true;
+            }
         }
+        if (!any) continue;
+        size_t extent = (size_t)(cur - (const char*)e->ptr);
+        pv_countf(1, "own_buffer.extent_wiped_from_the_address_of_a_normaliser_input.%zu", extent); PV_COUNT("own_buffer.observations", 1);
+        if (extent < e->len)
+            pv_violation("C17/own-buffer-smaller-than-its-string", "%s (%s): a %zu-byte string was handed to the normaliser from a buffer of which the library wipes %zu bytes", what, L->name_en, e->len, extent);
     }
 }
 
